@@ -466,6 +466,22 @@ def check_identifier_paths(ctx):
                file=IDENT, line=fn.lineno)
 
 
+def lexer_token_stubs(ctx):
+    """stand-ins for `<LexerClass>.tokens` as identifier.py uses them: the statically extracted token sets of the lexer classes it imports"""
+    from ..grammar import _SetEval, _module_of
+    tree = ctx.src.tree(IDENT)
+    se = _SetEval(ctx.src)
+    stubs = {}
+    for n in ast.walk(tree):
+        if isinstance(n, ast.ImportFrom) and n.module and 'lexer' in n.module:
+            for a in n.names:
+                try:
+                    stubs[f'{a.asname or a.name}.tokens'] = set(se.lexer_tokens(_module_of(ctx.src, n.module), a.name))
+                except Exception:
+                    pass
+    return stubs
+
+
 def identifier_printer(ctx):
     """Identifier.parts_to_str interpreted (fail-closed AST interpreter): callable(list of parts) -> printed text.  The reserved words are whatever
     get_reserved_words computes from the statically extracted token sets of the lexer classes it names."""
